@@ -13,4 +13,16 @@ PROPS = {
             'per-key separation (one manager per key, control elements forwarded to every manager) is KeyedWindowManager/WindowOperator code, not covered by this unit',
         ],
     },
+    'C15': {
+        'level': 'proof',
+        'units': [
+            {'engine': 'verus', 'name': 'par_range', 'tier': 'quick', 'role': 'IntoParallelSource::generate_iterator for Range<u64> and the 9 macro instances + partition lemma'},
+        ],
+        'explanation': 'Verus proof (unbounded) that every integer-range instance of generate_iterator returns exactly the chunk '
+                       '[lo+min(n,i*c), lo+min(n,(i+1)*c)) without panicking for all bounds incl. reversed and near-limit ones, and a pure '
+                       'lemma that these chunks are a disjoint cover of the range.',
+        'assumptions': [
+            'file/CSV sources: see unit list (FileSource bounded, CsvSource not covered)',
+        ],
+    },
 }
